@@ -88,7 +88,20 @@ def custom_parse(impl, v):
         if isinstance(v, dict):
             return ("raised",)
         return ("value", {"v": v}) if isinstance(v, str) else ("refused",)
-    return ("value", v)
+    return ("value", v) if _all_finite(v) else ("refused",)     # default_scalar: `_transparent` refuses NaN / +-Infinity at any depth
+
+
+def _all_finite(v):
+    stack = [v]
+    while stack:
+        x = stack.pop()
+        if isinstance(x, float) and not math.isfinite(x):
+            return False
+        if isinstance(x, (list, tuple)):
+            stack.extend(x)
+        elif isinstance(x, dict):
+            stack.extend(x.values())
+    return True
 
 
 def custom_accepts_kind(impl, v):
@@ -717,7 +730,8 @@ def leaf_wrong(reg, d):
             return ["7", "x", "", 1.5, True, [1], {"a": 1}, [[2]]]
         if impl == "tagged":
             return [1, True, {"a": 1}, ["x"], 1.5]
-        return [1, 1.5, [1, "a"], {"k": [True]}, {}, float("inf"), ["a", None, {"x": "A", "y": [False]}], [[]], {"k": None}]
+        return [1, 1.5, [1, "a"], {"k": [True]}, {}, float("inf"), ["a", None, {"x": "A", "y": [False]}], [[]], {"k": None},
+                [float("inf")], {"k": [1.5, float("nan")]}, [[float("-inf")]], float("nan")]
     if k == "enum":
         n0 = d["values"][0][0]
         return [1, True, 1.5, [n0, n0], {}, {n0: 1}, "not a name", "true"]
